@@ -25,6 +25,11 @@ def types_mem(H, cont, t):
 
 
 def tup_mem(H, tup, t):
+    """t is an element of tuple `tup` (SV with known item array, or a term read through heap H)"""
+    if isinstance(tup, SV):
+        if tup.aux is not None:
+            return tmem(tup.aux[0], tup.aux[1], t)
+        tup = tup.t
     ta = Val.a(tup)
     return tmem(z3.Select(H.h("t_item"), ta), H.t_len(ta), t)
 
@@ -97,13 +102,17 @@ def inv_conv(H):
 
 
 def inv_ctxsig(H, reg):
-    """I-ctxsig: the resource_added signal of a context, once bound, is a bound ResourceEvent signal"""
-    x = z3.Const("x!cs", I)
-    s = Val.a(ctx_sig(H, reg, x))
-    return z3.ForAll([x], z3.Implies(z3.And(is_ctx(H, x), bound_has(H, reg, vref(x), TOPIC_RA)),
-                                     z3.And(Val.is_ref(ctx_sig(H, reg, x)), 0 <= s, s < H.alloc, H.isset("_instance", s),
+    """I-ctxsig: the `resource_added` signal bound to any Context object is a bound ResourceEvent signal
+    (a fact of the descriptor wiring: Context.resource_added = Signal(ResourceEvent))"""
+    v = z3.Const("v!cs", Val)
+    b = bs_addr(reg)
+    sig = bound_sig(H, reg, v, TOPIC_RA)
+    s = Val.a(sig)
+    return z3.ForAll([v], z3.Implies(z3.And(Val.is_ref(v), subcls(H.fld("__class__", Val.a(v)), con("Context")),
+                                            bound_has(H, reg, v, TOPIC_RA)),
+                                     z3.And(Val.is_ref(sig), 0 <= s, s < H.alloc, H.isset("_instance", s),
                                             H.fld("event_class", s) == con("ResourceEvent"))),
-                     patterns=[ctx_sig(H, reg, x)])
+                     patterns=[H.d_get(b, v)])
 
 
 # --------------------------------------------------------------------------------------- guarantee
@@ -281,9 +290,9 @@ class AddResource(_TableSpec):
         c = Val.a(L.v("self").t)
         r = R(L.entry, c)
         j = z3.Const("j!l0", I)
-        key = Val.pair(L.cur.t_item(Val.a(Tt), j), L.v("name").t)
+        key = Val.pair(z3.Select(L.it["src"].aux[0], j), L.v("name").t)
         return [("scanned-prefix-is-free", z3.ForAll([j], z3.Implies(z3.And(0 <= j, j < L.it["i"]), z3.Not(L.cur.d_has(r, key))),
-                                                     patterns=[L.cur.t_item(Val.a(Tt), j)])),
+                                                     patterns=[z3.Select(L.it["src"].aux[0], j)])),
                 ("alloc-monotone", L.cur.alloc >= L.entry.alloc)]
 
     def _loop1(self, L):
@@ -296,13 +305,13 @@ class AddResource(_TableSpec):
         j = z3.Const("j!l1", I)
         k = z3.Const("k!l1", Val)
         x = z3.Const("x!l1", I)
-        key = Val.pair(L.cur.t_item(Val.a(Tt), j), name)
+        key = Val.pair(z3.Select(L.it["src"].aux[0], j), name)
         E, C = L.entry, L.cur
         return [
             ("inserted-prefix", z3.ForAll([j], z3.Implies(z3.And(0 <= j, j < L.it["i"]), z3.And(C.d_has(r, key), C.d_get(r, key) == cont)),
-                                          patterns=[C.t_item(Val.a(Tt), j)])),
+                                          patterns=[z3.Select(L.it["src"].aux[0], j)])),
             ("only-keys-of-T-added", z3.ForAll([k], z3.Implies(z3.And(C.d_has(r, k), z3.Not(E.d_has(r, k))),
-                                                               z3.And(Val.is_pair(k), Val.snd(k) == name, tup_mem(C, Tt, Val.fst(k)),
+                                                               z3.And(Val.is_pair(k), Val.snd(k) == name, tmem(L.it["src"].aux[0], L.it["src"].aux[1], Val.fst(k)),
                                                                       C.d_get(r, k) == cont)), patterns=[C.d_has(r, k)])),
             ("old-entries-kept", z3.ForAll([k], z3.Implies(E.d_has(r, k), z3.And(C.d_has(r, k), C.d_get(r, k) == E.d_get(r, k))),
                                            patterns=[C.d_get(r, k)])),
@@ -329,9 +338,7 @@ def register(reg):
                        ("I-state:state-is-a-ContextState", inv_state, ("g:ctx_init", "fld:_state")),
                        ("I-key:table-keys-match-containers", inv_key_R, CTXF + ("d_has", "d_get", "fld:name", "fld:types", "t_len", "t_item", "alloc")),
                        ("I-key:factory-keys-match-factories", inv_key_F, CTXF + ("d_has", "d_get", "fld:name", "fld:types", "t_len", "t_item", "alloc")),
-                       ("I-conv:container-registered-under-all-its-types", inv_conv, CTXF + ("d_has", "d_get", "fld:name", "fld:types", "t_len", "t_item", "alloc")),
-                       ("I-ctxsig:resource_added-is-a-bound-ResourceEvent-signal", lambda H, reg=reg: inv_ctxsig(H, reg),
-                        CTXF + ("d_has", "d_get", "fld:event_class", "set:_instance", "alloc"))]
+                       ("I-conv:container-registered-under-all-its-types", inv_conv, CTXF + ("d_has", "d_get", "fld:name", "fld:types", "t_len", "t_item", "alloc"))]
     reg.guarantees += [("G-mono:tables-only-grow", g_mono, CTXF + ("d_has", "d_get")),
                        ("G-init:initialised-and-owned-stay-so", g_init, ("g:ctx_init", "g:owner")),
                        ("G-st:closed-is-monotone", g_closed, ("g:ctx_init", "fld:_state"))]
